@@ -229,6 +229,12 @@ def main():
                 if L > 1 and sum(1 for o in seq if o[0] == "save") > 1:
                     continue
                 cases.append({"shape": list(shape), "ops": [list(o) for o in seq] + ([["save"]] if L == 1 else [])})
+    # tables that grow past one storage tile (256 rows) and past the narrow-row width (255 columns): the saved file splits them
+    for ops in ([("add_row", 253, None, "d"), ("write", 255, 1, 7), ("save",)],
+                [("add_row", 254, None, "d"), ("add_row", 1, 0, "x"), ("save",), ("delete_row", 2, 100), ("save",)],
+                [("add_row", 510, None, 2.5), ("delete_row", 1, 0), ("write", 511, 2, "last"), ("save",)],
+                [("add_column", 254, None, 1), ("write", 2, 256, "wide"), ("save",)]):
+        cases.append({"shape": [3, 3], "ops": [list(o) for o in ops]})
     rnd = random.Random(a.seed)
     for _ in range(a.random):
         ops = ops_alphabet(3, 3)
